@@ -166,6 +166,7 @@ func (x *Exec) setupEntry() (*State, error) {
 		for _, r := range reqs {
 			st.assume(r)
 		}
+		x.userAsserts(st, fr, callName{"@entry", 1}, false)
 		// bounds stated by requires hold on every path: let the simplifier use them from now on
 		// (the solver has the facts themselves in the path condition)
 		for _, r := range reqs {
@@ -606,4 +607,35 @@ func hasQuant(t *Term, cache map[*Term]bool) bool {
 	}
 	cache[t] = r
 	return r
+}
+
+// learnBoundsOf is learnBounds restricted to the given symbols.
+func (x *Exec) learnBoundsOf(t *Term, syms map[*Term]bool) {
+	b := x.b
+	switch t.Op {
+	case "and":
+		for _, a := range t.Args {
+			x.learnBoundsOf(a, syms)
+		}
+	case "<=", "<":
+		l, r := t.Args[0], t.Args[1]
+		adj := int64(0)
+		if t.Op == "<" {
+			adj = 1
+		}
+		if l.Op == "int" && syms[r] {
+			lo := new(big.Int).Add(l.Val, big.NewInt(adj))
+			if cur, ok := b.symLo[r]; !ok || cur.Cmp(lo) < 0 {
+				b.symLo[r] = lo
+				b.bcache = map[*Term][2]*big.Int{}
+			}
+		}
+		if r.Op == "int" && syms[l] {
+			hi := new(big.Int).Sub(r.Val, big.NewInt(adj))
+			if cur, ok := b.symHi[l]; !ok || cur.Cmp(hi) > 0 {
+				b.symHi[l] = hi
+				b.bcache = map[*Term][2]*big.Int{}
+			}
+		}
+	}
 }
